@@ -36,10 +36,13 @@ READS_DESC = (
     "copy_tracts", "to_standard_list", "require_colon",
     "group_by_sort1", "group_by_nested_sort1", "iterate", "copy_then_edit",
     "std_list_clear", "filter_result_edit", "concat",
+    "group_unpack", "group_tracts_by", "snapshot_inside", "export_all",
+    "csv_devnull", "writer_devnull",
 )
 READS_TRACT = (
     "to_dict", "to_list", "quick_desc", "quick_desc_short", "repr", "str",
     "lots_qqs", "ilots", "flags", "pretty_twprge", "trs_is_error",
+    "export_all", "writer_devnull",
 )
 SORT_KEYS = ("i", "i,s,r,t", "s.reverse,r.ew,t.ns", "t.num,r.num", "s",
              "i.rev", "r.we,t.sn", "zz")
@@ -307,6 +310,42 @@ def _do_read(subj, what):
         return subj.to_dict(*ATTRS_FOR_READS, "bogus_attr")
     if what == "to_list":
         return subj.to_list(list(ATTRS_FOR_READS))
+    if what == "group_unpack":
+        import pytrs
+        g = subj.group_by("twprge")
+        pytrs.sort_grouped_tracts(g, ["s.rev", "i"])
+        return [pytrs.TractList.unpack_group(g),
+                pytrs.TractList.unpack_group(g, sort_key="s")]
+    if what == "group_tracts_by":
+        import pytrs
+        return pytrs.group_tracts_by([subj, subj.tracts], "sec",
+                                     sort_key="t.sn")
+    if what == "snapshot_inside":
+        return subj.tracts.snapshot_inside()
+    if what == "export_all":
+        import pytrs
+        names = list(pytrs.Tract.ATTRIBUTES)
+        if isinstance(subj, pytrs.Tract):
+            return [subj.to_list(names), subj.to_dict(*names)]
+        return [subj.tracts_to_list(names), subj.tracts_to_dict(names)]
+    if what == "csv_devnull":
+        # an export reads the tracts: it must leave them as they are
+        import os
+        import pytrs
+        subj.tracts_to_csv(list(pytrs.Tract.ATTRIBUTES), os.devnull, "w",
+                           nice_headers=True)
+        return None
+    if what == "writer_devnull":
+        import os
+        import pytrs
+        from pytrs.tractwriter import TractWriter
+        w = TractWriter(list(pytrs.Tract.ATTRIBUTES), os.devnull, "w", uid=3)
+        try:
+            return w.write([subj, None if isinstance(subj, pytrs.Tract)
+                            else list(subj.tracts)][:2 if not isinstance(
+                                subj, pytrs.Tract) else 1])
+        finally:
+            w.close()
     if what == "lots_qqs":
         return subj.lots_qqs
     if what == "ilots":
